@@ -646,7 +646,18 @@ def partial_eq_discharged(prog, ev):
                 r6(prog, ev, tmp, helper, roles[1])
                 if any(i["rule"] == "C04-R6" and i["status"] not in ("ok",) for i in tmp.instances):
                     DISCHARGED[id(prog)] = set()
+                UNREADABLE[id(prog)] = any(i["rule"] == "C04-R6" and i["status"] == "unrecognised" for i in tmp.instances) and \
+                    not any(i["rule"] == "C04-R6" and i["status"] == "violation" for i in tmp.instances)
     return DISCHARGED[id(prog)]
+
+
+UNREADABLE = {}
+
+
+def partial_eq_unreadable(prog, ev):
+    """the structural branches exist but one of them is written in a form C04-R6 could not read (no violation was shown)"""
+    partial_eq_discharged(prog, ev)
+    return UNREADABLE.get(id(prog), False)
 
 
 def _loopy(t):
